@@ -26,6 +26,14 @@ from .rt import raw_decode, tensor_from_structure
 from .tensors import fmt_str, parse_fmt
 
 
+def exact(x):
+    """Fraction of a float, or None for a non-finite value (which then differs from every expectation)."""
+    try:
+        return Fraction(x)
+    except (ValueError, OverflowError):
+        return None
+
+
 def values_for(ti, n):
     return [Fraction(q + 1, 4) + ti for q in range(n)]
 
@@ -94,7 +102,7 @@ def work(unit):
                         clause=kx._clause(problems[0]))
                     continue
                 exp = reference(prog, env, DIM, zero=Fraction(0), lift=Fraction)
-                bad = [c for c, v in exp.items() if Fraction(stored.get(c, 0.0)) != v] + [c for c in stored if c not in exp]
+                bad = [c for c, v in exp.items() if exact(stored.get(c, 0.0)) != v] + [c for c in stored if c not in exp]
                 if bad:
                     c0 = bad[0]
                     add(["C01"], "value", f"value differs from tensor algebra at {c0}: got {stored.get(c0)}, "
